@@ -114,6 +114,18 @@ func (t *runTarget) Evaluate(engine runner.Engine) error {
 		return nil
 	}
 
+	// Record that the target is about to run, so that a build that dies inside the target does
+	// not leave it remembered as up-to-date (its old record may still match, e.g. when it only
+	// re-runs because a generated file was missing).
+	if !info.Rerun {
+		inProgress := info
+		inProgress.Rerun = true
+		if err := proj.saveTargetInfo(label, inProgress); err != nil {
+			proj.events.TargetFailed(label, err)
+			return err
+		}
+	}
+
 	// Otherwise, evaluate the target.
 	data, changed, err := t.target.evaluate()
 	if err != nil {
